@@ -78,8 +78,17 @@ func mkMaterial(typ string, rng *mrand.Rand) *material {
 					}
 					rsaPool = append(rsaPool, k)
 				}
+				// the unrelated key has another modulus size (stanza bodies of another length)
+				k3, err := rsa.GenerateKey(rand.Reader, 3072)
+				if err != nil {
+					vk.Infra("%v", err)
+				}
+				rsaPool = append(rsaPool, k3)
 			})
 			k := rsaPool[i]
+			if name == "U" {
+				k = rsaPool[3]
+			}
 			priv = k
 			pk, _ = ssh.NewPublicKey(&k.PublicKey)
 			r, err := agessh.NewRSARecipient(pk)
@@ -109,6 +118,11 @@ func mkMaterial(typ string, rng *mrand.Rand) *material {
 					}
 					rsaPool = append(rsaPool, k)
 				}
+				k3, err := rsa.GenerateKey(rand.Reader, 3072)
+				if err != nil {
+					vk.Infra("%v", err)
+				}
+				rsaPool = append(rsaPool, k3)
 			})
 			priv = rsaPool[2]
 		} else {
@@ -157,6 +171,43 @@ func mkMaterial(typ string, rng *mrand.Rand) *material {
 		m.rcp["T"] = forged{&age.Stanza{Type: "ssh-ed25519", Args: []string{tag, base64.RawStdEncoding.EncodeToString(share)}, Body: body}}
 	}
 	return m
+}
+
+// negated is the material of Stored = "G": the key file is A's, and the declared public key is A's point negated (the
+// same key with the sign bit of its encoding flipped: another SSH key, another tag, the same Curve25519 u-coordinate).
+func (m *material) negated() *material {
+	g := &material{typ: m.typ, pub: map[string]ssh.PublicKey{}, pem: map[string][]byte{}, rcp: map[string]age.Recipient{}, files: map[string][]byte{}}
+	for k, v := range m.pub {
+		g.pub[k] = v
+	}
+	for k, v := range m.rcp {
+		g.rcp[k] = v
+	}
+	for k, v := range m.pem {
+		g.pem[k] = v
+	}
+	ck, ok := m.pub["A"].(ssh.CryptoPublicKey)
+	if !ok {
+		vk.Infra("no crypto key behind A")
+	}
+	a, ok := ck.CryptoPublicKey().(ed25519.PublicKey)
+	if !ok {
+		vk.Infra("A is not an Ed25519 key")
+	}
+	neg := append(ed25519.PublicKey{}, a...)
+	neg[31] ^= 0x80
+	pk, err := ssh.NewPublicKey(neg)
+	if err != nil {
+		vk.Infra("%v", err)
+	}
+	g.pub["D"] = pk
+	r, err := agessh.NewEd25519Recipient(pk)
+	if err != nil {
+		vk.Infra("negated key as recipient: %v", err)
+	}
+	g.rcp["D"] = r
+	g.pem["G"] = m.pem["A"]
+	return g
 }
 
 func (m *material) file(sig []string) []byte {
@@ -279,17 +330,24 @@ func Run(tier string) {
 	rng := mrand.New(mrand.NewSource(run.Seed))
 	total := 0
 	for _, typ := range []string{"ed25519", "rsa"} {
-		m := mkMaterial(typ, rng)
-		for _, stored := range []string{"D", "A", "O"} {
+		m0 := mkMaterial(typ, rng)
+		for _, stored := range []string{"D", "A", "O", "G"} {
 			if stored == "O" && typ == "rsa" && !run.Thorough() {
 				continue // the cross-type key file is symmetric; the quick tier takes the cheaper direction
+			}
+			m := m0
+			if stored == "G" {
+				if typ != "ed25519" {
+					continue // a point and its negation: Ed25519 only
+				}
+				m = m0.negated()
 			}
 			files := "FilesSmall"
 			maxCalls := 2
 			if run.Thorough() {
 				files = "FilesFull"
 			}
-			if typ == "ed25519" && !run.Thorough() {
+			if typ == "ed25519" && !run.Thorough() && stored != "G" {
 				files = "FilesMid"
 			}
 			cfg := fmt.Sprintf("SPECIFICATION Spec\nCONSTANTS\n Stored = \"%s\"\n Files <- %s\n MaxCalls = %d\n CacheBeforeValidate = FALSE\nINVARIANTS PromptOnlyOnMatch PromptWhenAddressed CacheOnlyValidated HistoryFree Emit\nCHECK_DEADLOCK FALSE\n", stored, files, maxCalls)
